@@ -38,6 +38,7 @@ impl Fuse
     fn blown(&self) -> bool { self.0.lock().unwrap().blown }
     fn last(&self) -> String { self.0.lock().unwrap().done.last().cloned().unwrap_or("nothing yet".to_string()) }
     fn commands_ran(&self) -> bool { self.0.lock().unwrap().done.iter().any(|l| l.starts_with("command")) }
+    fn labels(&self) -> Vec<String> { self.0.lock().unwrap().done.clone() }
 }
 
 struct KillFile { inner: FakeOpenFile, path: String, fuse: Fuse }
@@ -189,7 +190,7 @@ fn verif_kill_points()
         Scenario { name: "build A; build B; back to A; build", prior: p_flip_back, last: Last::Build },
         Scenario { name: "build; edit note (two-target rule); build", prior: p_built_edit_note, last: Last::Build },
     ];
-    let mut cases = 0usize; let mut bad = 0usize;
+    let mut cases = 0usize; let mut bad = 0usize; let mut paths_cases = 0usize; let mut paths_bad = 0usize;
     for sc in scenarios.iter()
     {
         for torn in [false, true].iter()
@@ -242,6 +243,25 @@ fn verif_kill_points()
                     bad += 1;
                     if bad <= 6 { println!("WITNESS B-kill-C11 :: {} :: {}", at, complaints.join("; ")); }
                 }
+                /*  C09, on the run that was not interrupted: every path ruler itself created, wrote, renamed, chmod-ed or removed is a
+                    declared target or lies inside ruler's own directory -- also the paths that exist only between two calls */
+                if !fuse.blown() && !*torn
+                {
+                    paths_cases += 1;
+                    let allowed = |p: &str| p.starts_with(".ruler/") || p == ".ruler" || TARGETS.contains(&p);
+                    for l in fuse.labels().iter()
+                    {
+                        let ps : Vec<String> =
+                            if let Some(r) = l.strip_prefix("create ") { vec![r.to_string()] }
+                            else if let Some(r) = l.strip_prefix("mkdir ") { vec![r.to_string()] }
+                            else if let Some(r) = l.strip_prefix("chmod ") { vec![r.to_string()] }
+                            else if let Some(r) = l.strip_prefix("remove ") { vec![r.to_string()] }
+                            else if let Some(r) = l.strip_prefix("rename ") { r.split(" to ").map(|x| x.to_string()).collect() }
+                            else if l.starts_with("write ") { vec![l.rsplit(" to ").next().unwrap().to_string()] }
+                            else { vec![] };
+                        for p in ps.iter() { if !allowed(p) { paths_bad += 1; if paths_bad <= 4 { println!("WITNESS B-kill-C09 :: {} :: ruler itself touched {:?} ({}), which is neither a declared target nor inside its own directory", sc.name, p, l); } } }
+                    }
+                }
                 if !fuse.blown() { break; }
                 allowance += 1;
                 if allowance > 400 { println!("WITNESS B-kill-C11 :: {} :: more than 400 mutations in one invocation", sc.name); bad += 1; break; }
@@ -249,4 +269,5 @@ fn verif_kill_points()
         }
     }
     println!("SUMMARY B-kill-C11 cases={} disagreements={}", cases, bad);
+    println!("SUMMARY B-kill-C09 cases={} disagreements={}", paths_cases, paths_bad);
 }
